@@ -236,9 +236,12 @@ Outcome exec_c14a(const C14aCase& cc, bool keep_log, Stats* stats) {
     if (c.interval > static_cast<int64_t>(zi.T.size())) { if (stats) stats->add("enum_beyond_last_interval"); out.log_hash = 2; return out; }
     build_enum_steps(&c, zi);
   }
+  // The history runs on a simulated thread of its own (a fresh thread: its thread_locals start from their
+  // initial state), every reference answer is produced on yet another fresh thread by a fresh copy of the
+  // zone, and so is the reversed history.  "Earlier calls" therefore differ in everything a call could leave
+  // behind: the zone's hints, the name cache, per-thread state and ambient C state such as errno.
   cctz::time_zone subject;
-  ld.load(zi.bytes, &subject, "subject");
-  cctz::time_zone decoy_zone, decoy_fixed = cctz::fixed_time_zone(cctz::seconds(3600));
+  cctz::time_zone decoy_zone, decoy_fixed;
   bool decoy_loaded = false;
   uint64_t lh = 0x14;
   std::vector<std::string> log;
@@ -248,54 +251,76 @@ Outcome exec_c14a(const C14aCase& cc, bool keep_log, Stats* stats) {
   const bool random_mode = c.part != "enum" && c.interval < 0;
   std::vector<std::string> got(c.steps.size());
   std::vector<Query> asked(c.steps.size());
-  int64_t checked = 0, fresh_loads = 0, hint_hits_possible = 0;
-  std::string prev_text = "(none)";
+  int64_t checked = 0, fresh_loads = 0, hint_hits_possible = 0, tls_blocks = 0;
+  SchedConfig scfg;
+  scfg.chooser = CH_SEQUENTIAL;
+  scfg.step_cap = 4000000;
+  auto run_thread = [&](const std::function<void()>& fn) {
+    std::vector<std::function<void()>> bodies;
+    bodies.push_back([&] { NoYield ny; fn(); });
+    SchedResult sr = run_tasks(bodies, scfg);
+    tls_blocks += sr.tls_blocks;
+    if (sr.deadlock || sr.steps_exceeded) viol("c14:stuck", sr.deadlock ? "deadlock" : "steps", sr.deadlock_info);
+  };
+  run_thread([&] {
+    ld.load(zi.bytes, &subject, "subject");
+    decoy_fixed = cctz::fixed_time_zone(cctz::seconds(3600));
+    for (size_t i = 0; i < c.steps.size(); ++i) {
+      Query q = c.steps[i].q;
+      if (c.steps[i].then_lookup_cs) {
+        // civil setter: the civil second that the setter instant maps to, asked as lookup(cs)
+        cctz::civil_second cs = cctz::convert(tp_of(q.a), subject);
+        q = civil_q(cs);
+      }
+      asked[i] = q;
+      errno = (i % 3 == 0) ? ERANGE : ((i % 3 == 1) ? 0 : EINVAL);   // ambient C state left by "earlier calls" must not matter
+      if (c.steps[i].zone != 0) {
+        // Decoy: the same kind of call on a different zone; its answer is not judged here.
+        if (c.steps[i].zone == 1 && !decoy_loaded) { ld.load(shipped_bytes(c.base == "shipped:Europe/London" ? "Asia/Tokyo" : "Europe/London"), &decoy_zone, "decoy"); decoy_loaded = true; }
+        const cctz::time_zone& dz = c.steps[i].zone == 1 ? decoy_zone : (c.steps[i].zone == 2 ? cctz::utc_time_zone() : decoy_fixed);
+        got[i] = run_query(dz, q);
+        continue;
+      }
+      got[i] = run_query(subject, q);
+    }
+  });
   for (size_t i = 0; i < c.steps.size(); ++i) {
-    Query q = c.steps[i].q;
-    if (c.steps[i].then_lookup_cs) {
-      // civil setter: the civil second that the setter instant maps to, asked as lookup(cs)
-      cctz::civil_second cs = cctz::convert(tp_of(q.a), subject);
-      q = civil_q(cs);
-    }
-    asked[i] = q;
-    errno = (i % 3 == 0) ? ERANGE : ((i % 3 == 1) ? 0 : EINVAL);   // ambient C state left by "earlier calls" must not matter
-    if (c.steps[i].zone != 0) {
-      // Decoy: the same kind of call on a different zone; its answer is not judged here.
-      if (c.steps[i].zone == 1 && !decoy_loaded) { ld.load(shipped_bytes(c.base == "shipped:Europe/London" ? "Asia/Tokyo" : "Europe/London"), &decoy_zone, "decoy"); decoy_loaded = true; }
-      const cctz::time_zone& dz = c.steps[i].zone == 1 ? decoy_zone : (c.steps[i].zone == 2 ? cctz::utc_time_zone() : decoy_fixed);
-      got[i] = run_query(dz, q);
-      continue;
-    }
-    got[i] = run_query(subject, q);
+    if (c.steps[i].zone != 0) continue;
     lh = hash_str(got[i], lh);
-    if (keep_log && log.size() < 400) log.push_back(std::string(c.steps[i].check ? "check " : "set   ") + query_text(q) + " = " + got[i]);
+    if (keep_log && log.size() < 400) log.push_back(std::string(c.steps[i].check ? "check " : "set   ") + query_text(asked[i]) + " = " + got[i]);
     if (c.steps[i].check && (!random_mode || i % 16 == 0 || c.steps.size() <= 64)) {
+      const Query& q = asked[i];
       std::string key = qkey(q);
       auto it = zi.want.find(key);
       if (it == zi.want.end()) {
-        cctz::time_zone twin;
-        errno = 0;
-        ld.load(zi.bytes, &twin, "twin");
-        errno = 0;
+        std::string w;
+        run_thread([&] {
+          cctz::time_zone twin;
+          errno = 0;
+          ld.load(zi.bytes, &twin, "twin");
+          errno = 0;
+          w = run_query(twin, q);
+        });
         ++fresh_loads;
-        it = zi.want.emplace(key, run_query(twin, q)).first;
+        it = zi.want.emplace(key, w).first;
       }
       ++checked;
       if (it->second != got[i])
-        viol("c14:hint-dependence", query_text(q) + " on " + c.base, "after " + prev_text + " got '" + got[i] + "' but a freshly loaded copy answers '" + it->second + "' (step " + std::to_string(i) + ")");
+        viol("c14:hint-dependence", query_text(q) + " on " + c.base, "after " + (i ? query_text(asked[i - 1]) : std::string("(none)")) + " got '" + got[i] + "' but a freshly loaded copy on a fresh thread answers '" + it->second + "' (step " + std::to_string(i) + ")");
     }
-    prev_text = query_text(q);
   }
   if (random_mode) {
-    // Second reference: one fresh copy that is asked the same questions in reverse order.
-    cctz::time_zone rev;
-    ld.load(zi.bytes, &rev, "rev");
-    for (size_t k = c.steps.size(); k-- > 0;) {
-      if (!c.steps[k].check || c.steps[k].zone != 0) continue;
-      std::string w = run_query(rev, asked[k]);
-      ++checked;
-      if (w != got[k]) { viol("c14:hint-dependence", query_text(asked[k]) + " on " + c.base, "forward history got '" + got[k] + "', reversed history got '" + w + "' (step " + std::to_string(k) + ")"); break; }
-    }
+    // Second reference: one fresh copy, on a fresh thread, that is asked the same questions in reverse order.
+    run_thread([&] {
+      cctz::time_zone rev;
+      ld.load(zi.bytes, &rev, "rev");
+      for (size_t k = c.steps.size(); k-- > 0;) {
+        if (!c.steps[k].check || c.steps[k].zone != 0) continue;
+        std::string w = run_query(rev, asked[k]);
+        ++checked;
+        if (w != got[k]) { viol("c14:hint-dependence", query_text(asked[k]) + " on " + c.base, "forward history got '" + got[k] + "', reversed history got '" + w + "' (step " + std::to_string(k) + ")"); break; }
+      }
+    });
   }
   (void)hint_hits_possible;
   for (const UbReport& u : rt.ub) (void)u;  // UB in pure conversions is C12's business
@@ -314,6 +339,7 @@ Outcome exec_c14a(const C14aCase& cc, bool keep_log, Stats* stats) {
     stats->add("checked_answers", checked);
     stats->add("fresh_twin_loads", fresh_loads);
     stats->add(random_mode ? "random_histories" : "enumerated_hint_states");
+    if (tls_blocks) stats->add("probe.thread_local_instances_created", tls_blocks);
     if (!rt.ub.empty()) stats->add("ubsan_reports_counted_not_judged", static_cast<int64_t>(rt.ub.size()));
   }
   rt.faults_fired.clear(); rt.probes.clear();
